@@ -114,8 +114,13 @@ func c06RunCache(c *core.Ctx, k c06Case) bool {
 	var hist []c06Rec
 	chains := map[uint64]*c06Chain{}
 	trace := []string{}
+	// the same history for the REGENERATED IsDuplicate (mieru-gen, tools/goextract/replaytrans.go)
+	var genCalls []string
+	genAns, genOK := "", true
+	lastCur, lastPrev := 0, 0
 	for i, op := range k.Ops {
 		if op.Clear {
+			genOK = false // Clear is not part of the translated function
 			cache.Clear()
 			if r := c.Model.Ask("replay-clear %d", id); r != "ok" {
 				c.Disagree("C06/corr/replay-clear", "model: "+r, k)
@@ -181,6 +186,9 @@ func c06RunCache(c *core.Ctx, k c06Case) bool {
 			c.Disagree("C06/corr/replay-dup", "model: "+m, k)
 			return true
 		}
+		genCalls = append(genCalls, fmt.Sprintf("%s:%s:%d", core.Hex(data), core.Hex([]byte(tag)), before.Nanoseconds()))
+		genAns += map[bool]string{true: "1", false: "0"}[got]
+		lastCur, lastPrev = cur, prev
 		trace = append(trace, fmt.Sprintf("%v/%s/%s", got, f[5], f[6]))
 		c.Hist("rotation", f[5])
 		c.Hist("found_in", f[6])
@@ -302,6 +310,14 @@ func c06RunCache(c *core.Ctx, k c06Case) bool {
 			}
 		}
 		hist = append(hist, c06Rec{sig, tag, before, after})
+	}
+	if genOK && c.Gen != nil && len(genCalls) > 0 {
+		c.Compared()
+		want := fmt.Sprintf("ok %s cur=%d prev=%d", genAns, lastCur, lastPrev)
+		if g := c.Gen.Ask("replaygen %d %d 0 %s", k.Cap, iv.Nanoseconds(), strings.Join(genCalls, " ")); g != want {
+			c.Disagree("C06/corr/regenerated-isDuplicate", fmt.Sprintf("real cache: %s; regenerated definition: %s", want, g), k)
+		}
+		c.Hist("regenerated_isDuplicate", "history compared")
 	}
 	c.Eval(fmt.Sprintf("cache/%d/%d/%s", k.Cap, k.IntervalMs, strings.Join(trace, ",")), true)
 	c06Mu.Lock()
@@ -539,6 +555,39 @@ func c06GenOwner(c *core.Ctx, cap int, timed bool, serial int) []c06Op {
 	return ops
 }
 
+// c06Boundaries: the boundary histories of the property's quantifier, on EVERY run: for each small
+// capacity exactly capacity−1 / capacity / capacity+1 distinct other items between the two presentations
+// (EmptyTag, and owner A / presenter B), and items of the boundary lengths around the 16 bytes the
+// protocol presents.
+func c06Boundaries() []c06Case {
+	var res []c06Case
+	e := "-"
+	A, B := core.Hex([]byte("10.0.0.1:1")), core.Hex([]byte("10.0.0.2:2"))
+	for cap := 1; cap <= 6; cap++ {
+		for _, others := range []int{cap - 1, cap, cap + 1, 2*cap - 1, 2 * cap, 2*cap + 1} {
+			for _, tags := range [][2]string{{e, e}, {A, B}, {A, A}} {
+				ops := []c06Op{{Data: core.Hex([]byte{0xe0, byte(cap)}), Tag: tags[0]}}
+				for j := 0; j < others; j++ {
+					ops = append(ops, c06Op{Data: core.Hex([]byte{0xd0, byte(j)}), Tag: e})
+				}
+				ops = append(ops, c06Op{Data: core.Hex([]byte{0xe0, byte(cap)}), Tag: tags[1]}, c06Op{Data: core.Hex([]byte{0xe0, byte(cap)}), Tag: tags[1]})
+				res = append(res, c06Case{Kind: "cache", Cap: cap, IntervalMs: 3600000, Ops: ops})
+			}
+		}
+	}
+	for _, ln := range []int{0, 1, 15, 16, 17, 32} {
+		x, y := make([]byte, ln), make([]byte, ln)
+		for i := range x {
+			x[i], y[i] = byte(i+1), byte(i+1)
+		}
+		if ln > 0 {
+			y[ln-1] ^= 1
+		}
+		res = append(res, c06Case{Kind: "cache", Cap: 4, IntervalMs: 3600000, Ops: []c06Op{{Data: core.Hex(x), Tag: e}, {Data: core.Hex(y), Tag: e}, {Data: core.Hex(x), Tag: e}, {Data: core.Hex(y), Tag: A}}})
+	}
+	return res
+}
+
 func c06Fixed() []c06Case {
 	h := func(b ...byte) string { return core.Hex(b) }
 	e := "-"
@@ -592,6 +641,9 @@ func init() {
 				c.Note("corpus cases: %d", len(cases))
 			}
 			cases = append(cases, c06Fixed()...)
+			bs := c06Boundaries()
+			cases = append(cases, bs...)
+			c.Hist("boundary_histories", fmt.Sprintf("capacities 1..6 × others {cap-1,cap,cap+1,2cap-1,2cap,2cap+1} × tags {empty, A then B, A then A}; item lengths {0,1,15,16,17,32}: %d", len(bs)))
 			// size-driven histories
 			for i := 0; i < c.N(600, 8000); i++ {
 				cap := []int{1, 1, 2, 2, 3, 3, 4, 5, 8, 16, 0}[c.Rand.Intn(11)]
